@@ -160,6 +160,38 @@ fn search_path(rng: &mut Rng, stats: &mut Stats) {
     if pf.min() != fmn || pf.max() != fmx { stats.fail("C06", "path_fast_box_not_union", &format!("{} got={:?} want={:?}", desc, pf, (fmn, fmx))); }
 }
 
+fn search_path_scales(rng: &mut Rng, stats: &mut Stats) {
+    let n = 1 + rng.i(5) as usize;
+    let all_small = rng.i(3) == 0;
+    let mut pos = Coord2(rng.r(0.0, 100.0), rng.r(0.0, 100.0));
+    let start = pos;
+    let mut pts = vec![];
+    for _ in 0..n {
+        let s = if all_small { [1e-4, 3e-4, 6e-4][rng.i(3) as usize] } else { [1e-4, 3e-4, 1e-3, 1e-2, 1.0, 10.0][rng.i(6) as usize] };
+        let d = |rng: &mut Rng| Coord2(rng.r(-s, s), rng.r(-s, s));
+        let (a, b, e) = (pos + d(rng), pos + d(rng), pos + d(rng));
+        pts.push((a, b, e));
+        pos = e;
+    }
+    let path: SimpleBezierPath = (start, pts);
+    let desc = format!("path={:?}", path);
+    stats.case(&desc, n > 1);
+    stats.count(if all_small { "path.all_sections_tiny" } else { "path.mixed_section_sizes" });
+    let pb: Bounds<Coord2> = path.bounding_box();
+    let pf: Bounds<Coord2> = path.fast_bounding_box();
+    let curves: Vec<Curve<Coord2>> = path.to_curves();
+    let (mut mn, mut mx, mut fmn, mut fmx) = (Coord2(f64::MAX, f64::MAX), Coord2(f64::MIN, f64::MIN), Coord2(f64::MAX, f64::MAX), Coord2(f64::MIN, f64::MIN));
+    for c in &curves {
+        let b: Bounds<Coord2> = c.bounding_box();
+        let f: Bounds<Coord2> = c.fast_bounding_box();
+        mn = Coord2::from_smallest_components(mn, b.min()); mx = Coord2::from_biggest_components(mx, b.max());
+        fmn = Coord2::from_smallest_components(fmn, f.min()); fmx = Coord2::from_biggest_components(fmx, f.max());
+    }
+    let key = if all_small { "all_sections_tiny" } else { "mixed_section_sizes" };
+    if pb.min() != mn || pb.max() != mx { stats.fail("C06", &format!("path_box_not_union.{}", key), &format!("{} got={:?} want={:?}", desc, pb, (mn, mx))); }
+    if pf.min() != fmn || pf.max() != fmx { stats.fail("C06", &format!("path_fast_box_not_union.{}", key), &format!("{} got={:?} want={:?}", desc, pf, (fmn, fmx))); }
+}
+
 /// the edges of a path graph are curves too (graph_path/edge.rs overrides the boxes): every edge, in its forward and in its reversed
 /// direction, must have the boxes of the plain curve with the same control points
 fn search_graph_edges(rng: &mut Rng, stats: &mut Stats) {
@@ -201,5 +233,9 @@ pub fn search(seed: u64, n: u64) {
             _ => if rng.b() { search_path(&mut rng, &mut stats) } else { search_graph_edges(&mut rng, &mut stats) },
         }
     }
+    // paths with sections of very different sizes (own random stream): a small section - a rounded cap a fraction of a
+    // thousandth across - can be the one that defines a face of the path's box, and a whole path can be that small
+    let mut rng_s = Rng(seed ^ 0x71C06);
+    for _ in 0..n / 16 { search_path_scales(&mut rng_s, &mut stats); }
     stats.print("C06", "search");
 }
